@@ -32,6 +32,27 @@ def nt_any(ops, impl):
     return len([o for o in ops if o and not o.startswith("#")]) >= 2
 
 
+def pred_expect_reject(ops, impl):
+    """property predicate evaluated on the implementation's own answers: after a line `# expect-reject…`, the next
+    decode + check pair must not both succeed (for FINGERPRINT: unless the corrupted message no longer has exactly
+    one FINGERPRINT attribute)"""
+    bad = []
+    for i, o in enumerate(ops):
+        if not o.startswith("# expect-reject"):
+            continue
+        if i + 2 >= len(impl):
+            continue
+        dec, chk = impl[i + 1], impl[i + 2]
+        if dec.startswith("ok") and chk.startswith("ok"):
+            if o.startswith("# expect-reject-fp"):
+                views = dec.split(" V=", 1)[1].split(" ", 1)[0]
+                nfp = sum(1 for v in views.split(";") if v.startswith("32808:"))
+                if nfp != 1:
+                    continue
+            bad.append((i, "corrupted message accepted: " + ops[i + 1][:200]))
+    return bad
+
+
 STREAMS = {
     "msgtype": {"n": {"quick": 1, "thorough": 1}, "nontrivial": None},
     "decode": {"n": {"quick": 4000, "thorough": 150000}, "nontrivial": nt_decode},
@@ -40,6 +61,8 @@ STREAMS = {
     "agent-seq": {"n": {"quick": 3, "thorough": 4}, "nontrivial": None},
     "attrs-valid": {"n": {"quick": 1500, "thorough": 60000}, "nontrivial": nt_any},
     "attrs-malformed": {"n": {"quick": 1, "thorough": 30}, "nontrivial": nt_any},
+    "integrity": {"n": {"quick": 150, "thorough": 6000}, "nontrivial": nt_any, "predicate": pred_expect_reject},
+    "fingerprint": {"n": {"quick": 100, "thorough": 5000}, "nontrivial": nt_any, "predicate": pred_expect_reject},
 }
 
 
@@ -176,5 +199,34 @@ PROPS = {
         "rule": "every getter/checker x value length 0..40 (exhaustive) x position first/middle/last x capacity exact/"
                 "+1/+2/+19/+20/+64 x surroundings zero/0xFF/random (three twin messages differing only outside the "
                 "value); short values (<=5) with every position x capacity combination; message dumped after the call",
+    },
+    "C04": {
+        "modules": ["Stun.Properties.C04"],
+        "theorems": ["Stun.C04.check_spec", "Stun.C04.check_iff", "Stun.C04.check_no_panic", "Stun.C04.check_pure",
+                     "Stun.C04.wrong_mac_rejected", "Stun.C04.check_ignores_suffix", "Stun.C04.sign_then_check",
+                     "Stun.C04.sizeReduced_false", "Stun.C09.integrity_after_fp_refused"],
+        "streams": ["integrity"],
+        "tagsets": [["verif"], ["verif", "debug"]],
+        "level": "proof",
+        "rule": "signed messages built WITHOUT the library (crypto/hmac in the generator): 0..8 attributes before the MAC, "
+                "0..4 after it (every residue), keys 0..200 bytes incl. > 64 and MD5 long-term keys; every single-bit "
+                "flip of short messages, random flips of longer ones (predicate: a flip of a covered byte or of the MAC "
+                "must not verify); wrong/short/long MAC attributes; library signing + re-decode + check; refusal "
+                "after FINGERPRINT; the Lean side computes HMAC-SHA1 with its own RFC 2104/3174 implementation",
+        "assumptions": ["HMAC collision resistance (tamper detection is proved as: rejected iff the MAC over the "
+                        "covered span differs)"],
+    },
+    "C05": {
+        "modules": ["Stun.Properties.C05"],
+        "theorems": ["Stun.C05.fp_addTo_value", "Stun.C05.fp_check_iff", "Stun.C05.fp_add_then_check",
+                     "Stun.C07.fingerprintCheck_no_panic"],
+        "streams": ["fingerprint"],
+        "tagsets": [["verif"], ["verif", "debug"]],
+        "level": "proof",
+        "rule": "fingerprinted messages built without the library (hash/crc32 in the generator), with and without "
+                "MESSAGE-INTEGRITY-like attributes before; every bit position of short messages, random single bits "
+                "and bursts of <= 32 bits (CRC bit order) of longer ones (predicate: must be rejected while FINGERPRINT "
+                "stays the only such attribute); FINGERPRINT attributes of any length/position; CRC-32 values against "
+                "hash/crc32",
     },
 }
